@@ -17,11 +17,12 @@ def cfgs(ctx):
         # c joins b; b relays a's routes to c; a announces again (b's counter is ahead of a's: b has exit routes /
         # announces itself)
         F.base("c14-relay3", F.A3, l3, initups=[l2], exits=[["b"]], announcers=["a"], maxann=2, conn=1),
-        F.base("c14-relay3p", F.A3, l3, initups=[l2], exits=[[]], routeids=[], announcers=["a", "b"], maxann=2, conn=1),
         # ageing and stale-route cleanup between the announcements
         F.base("c14-age3", F.A3, l3, initups=[l2], exits=[["a"]], announcers=["a"], maxann=2, conn=1, age=1),
     ]
     if not ctx.quick():
+        # presence-only agents: b's counter gets ahead of a's through b's own announcements
+        out.append(F.base("c14-relay3p", F.A3, l3, initups=[l2], exits=[[]], routeids=[], announcers=["a", "b"], maxann=2, conn=1))
         t3 = F.L(("a", "b"), ("b", "c"), ("a", "c"))
         out.append(F.base("c14-tri3", F.A3, t3, initups=[l2], exits=[["b"]], announcers=["a"], maxann=2, conn=2, replay=False))
         l4 = F.L(("a", "b"), ("b", "c"), ("c", "d"))
